@@ -1,6 +1,6 @@
 #!/bin/bash
 # thorough tier of every check, one after the other; outputs th_<ID>.out
-for id in C02 C03 C04 C05 C06 C07 C08 C10 C11 C12 C13 C14 C15 C16 C17 C18 C19 C20 C09 C01; do
+for id in ${THOROUGH_ORDER:-C02 C03 C04 C05 C06 C07 C08 C10 C11 C12 C13 C14 C15 C16 C17 C18 C19 C20 C09 C01}; do
   s=$(date +%s); ./run.sh $id thorough > th_$id.out 2>&1; e=$?
   echo "$id exit=$e $(( $(date +%s)-s ))s $(tail -1 th_$id.out | cut -c1-220)"
 done
